@@ -192,6 +192,9 @@ type RuleFile struct {
 	Spans [][][2]int `json:"spans"`
 }
 
+// ruleVars are the variable parts of generated SecRule lines
+var ruleVars = []string{"ARGS", "ARGS", "REQUEST_COOKIES|!REQUEST_COOKIES:/__utm/|ARGS_NAMES|ARGS|XML:/*", "ARGS_NAMES|ARGS:/^json\\.\\d+$/", "REQUEST_HEADERS:User-Agent", "TX:/^old/"}
+
 type RulesOpts struct {
 	CRLF          bool
 	NoFinalNL     bool
@@ -200,6 +203,11 @@ type RulesOpts struct {
 	OtherOps      bool
 	NegatedOps    bool
 	WeirdOperands bool
+	// Variety: per-line choices (variables, trailing blanks after the closing `" \`, tab indentation, SecAction / SecMarker lines between rules); index = running SecRule number
+	Vars     []int
+	Trailing []int
+	Tabs     bool
+	Between  []int
 }
 
 func renderRuleFile(rf *RuleFile, o RulesOpts, header string, commentFor func(i int) string) {
@@ -210,6 +218,7 @@ func renderRuleFile(rf *RuleFile, o RulesOpts, header string, commentFor func(i 
 	}
 	sb.WriteString(header)
 	rf.Spans = nil
+	secNo := 0
 	for i, r := range rf.Rules {
 		if commentFor != nil {
 			if c := commentFor(i); c != "" {
@@ -217,13 +226,33 @@ func renderRuleFile(rf *RuleFile, o RulesOpts, header string, commentFor func(i 
 			}
 		}
 		var spans [][2]int
+		if i < len(o.Between) {
+			switch o.Between[i] {
+			case 1:
+				sb.WriteString("SecAction \\" + nl + "    \"id:90000" + fmt.Sprint(i) + ",\\" + nl + "    phase:1,\\" + nl + "    pass,\\" + nl + "    nolog\"" + nl + nl)
+			case 2:
+				sb.WriteString("SecMarker \"BEGIN-" + r.ID + "\"" + nl + nl)
+			}
+		}
 		for k := range r.Ops {
 			ind := strings.Repeat("    ", k)
-			sb.WriteString(ind + "SecRule ARGS \"" + r.Ops[k] + " ")
+			if o.Tabs {
+				ind = strings.Repeat("\t", k)
+			}
+			v := "ARGS"
+			if secNo < len(o.Vars) {
+				v = ruleVars[o.Vars[secNo]%len(ruleVars)]
+			}
+			sb.WriteString(ind + "SecRule " + v + " \"" + r.Ops[k] + " ")
 			start := sb.Len()
 			sb.WriteString(r.Regex[k])
 			spans = append(spans, [2]int{start, sb.Len()})
-			sb.WriteString("\" \\" + nl)
+			sb.WriteString("\" \\")
+			if secNo < len(o.Trailing) {
+				sb.WriteString(strings.Repeat(" ", o.Trailing[secNo]))
+			}
+			sb.WriteString(nl)
+			secNo++
 			if k == 0 {
 				sb.WriteString(ind + "    \"id:" + r.ID + ",\\" + nl)
 				sb.WriteString(ind + "    phase:2,\\" + nl)
